@@ -16,7 +16,7 @@ from elementpath.exceptions import ElementPathValueError
 from elementpath.sequences import xlist, XSequence
 from elementpath.helpers import split_function_test
 
-from elementpath.sequence_types import match_sequence_type
+from elementpath.sequence_types import is_sequence_type_restriction, match_sequence_type
 from .functions import XPathFunction
 
 
@@ -153,8 +153,9 @@ class XPathArray(XPathFunction):
             return False
 
         index_type, value_type = sequence_types
-        if index_type.endswith(('+', '*')):
+        # An array is a function(xs:integer) as V: the parameter type of the test
+        # has to be a subtype of xs:integer.
+        if not is_sequence_type_restriction('xs:integer', index_type):
             return False
 
-        return match_sequence_type(1, index_type) and \
-            all(match_sequence_type(v, value_type, self.parser) for v in self.items())
+        return all(match_sequence_type(v, value_type, self.parser) for v in self.items())
